@@ -47,9 +47,9 @@ def gen_case(rng, kind, big=False):
         return op, (lambda nt=None: K.calc_field_krige(mat, vecs, cond, nt)), dict(M=M, R=R)
     if kind in ("unstructured", "directional"):
         dim = int(rng.randint(1, 4))
-        P = int(rng.choice([1, 2, 3, rng.randint(4, hi)]))
+        P = int(rng.choice([1, 2, 3, rng.randint(4, 20 if big else 11)]))
         F = int(rng.randint(1, 4))
-        B = int(rng.randint(2, 9))
+        B = int(rng.randint(2, 7))
         pos = lattice_pos(rng, dim, P) if rng.rand() < 0.7 else rng.randn(dim, P) * 3
         f = dyadic(rng, (F, P)) if rng.rand() < 0.7 else rng.randn(F, P)
         if rng.rand() < 0.5:
@@ -77,7 +77,7 @@ def gen_case(rng, kind, big=False):
                   tol=fbits([tol])[0], bw=fbits([bw])[0], sep=sep, est=est)
         return op, (lambda nt=None: E.directional(f, bins, pos, d, tol, bw, sep, est, nt)), dict(dim=dim, P=P, F=F, B=B, D=D, est=est, sep=sep, bw=bw, nan=bool(np.isnan(f).any()))
     if kind in ("structured", "ma_structured"):
-        n0 = int(rng.choice([1, 2, 3, rng.randint(4, hi)]))
+        n0 = int(rng.choice([1, 2, 3, rng.randint(4, 24 if big else 14)]))
         n1 = int(rng.choice([1, 2, rng.randint(3, 12)]))
         f = dyadic(rng, (n0, n1)) if rng.rand() < 0.6 else rng.randn(n0, n1)
         est = str(rng.choice(["m", "c"]))
